@@ -128,6 +128,39 @@ theorem tickSync_stale_refused (env : Env) (cfg : Cfg) (n : Node) (ts : Int) (pe
           rw [hab]
   rw [hnone]
 
+/-- C02 for any DERIVED ledger: its confirmed part (the chain minus the tip) contains no double spend and spends only
+    outputs created earlier in it -/
+theorem C02_of_derived (l : Ledger) (hd : Derived l) :
+    (∀ (q1 k1 m1 q2 k2 m2 : Nat) (b1 b2 : Block) (t1 t2 : Tx) (i j : Input),
+        l.blocks.dropLast[q1]? = some b1 → b1.txs[k1]? = some t1 → t1.inputs[m1]? = some i →
+        l.blocks.dropLast[q2]? = some b2 → b2.txs[k2]? = some t2 → t2.inputs[m2]? = some j →
+        (q1, k1, m1) ≠ (q2, k2, m2) → i.txId = j.txId → i.index = j.index →
+        ∃ b ∈ l.blocks.dropLast, ∃ t ∈ b.txs, t.id = i.txId) ∧
+    (∀ (q k : Nat) (b : Block) (t : Tx) (i : Input),
+        l.blocks.dropLast[q]? = some b → b.txs[k]? = some t → i ∈ t.inputs →
+        ∃ (p : Nat) (b' : Block) (k' : Nat) (t' : Tx) (o : Output),
+          l.blocks.dropLast[p]? = some b' ∧ b'.txs[k']? = some t' ∧ t'.id = i.txId ∧ UtxoReg.creates t' = true ∧
+          t'.outputs[i.index]? = some o ∧ (p < q ∨ (p = q ∧ k' ≤ k))) := by
+  refine ⟨?_, ?_⟩
+  · intro q1 k1 m1 q2 k2 m2 b1 b2 t1 t2 i j hq1 hk1 hm1 hq2 hk2 hm2 hpos hid hix
+    exact C02_replay_no_double_spend _ _ _ hd q1 k1 m1 q2 k2 m2 b1 b2 t1 t2 i j hq1 hk1 hm1 hq2 hk2 hm2 hpos hid hix
+  · intro q k b t i hq hk hi
+    exact C02_replay_input_was_created_earlier _ _ hd q k b t i hq hk hi
+
+/-- **what the unserializable interleaving does NOT break**: even then the CONFIRMED part of the node's chain has no
+    double spend (C02) — the conflicting block is the unconfirmed tip, whose confirmation fails, so it never enters the
+    confirmed ledger; what is lost is liveness (no further block) and the tip's acceptability to peers -/
+theorem C02_confirmed_part_after_tickSync (env : Env) (cfg : Cfg) (n : Node) (ts : Int) (perm : List Tx) (rid : String)
+    (now : Int) (resps : List Resp) (pick : Nat) (hd : Derived n.led)
+    (q1 k1 m1 q2 k2 m2 : Nat) (b1 b2 : Block) (t1 t2 : Tx) (i j : Input) :
+    (stepTickSync env cfg n ts perm rid now resps pick).led.blocks.dropLast[q1]? = some b1 → b1.txs[k1]? = some t1 →
+    t1.inputs[m1]? = some i →
+    (stepTickSync env cfg n ts perm rid now resps pick).led.blocks.dropLast[q2]? = some b2 → b2.txs[k2]? = some t2 →
+    t2.inputs[m2]? = some j →
+    (q1, k1, m1) ≠ (q2, k2, m2) → i.txId = j.txId → i.index = j.index →
+    ∃ b ∈ (stepTickSync env cfg n ts perm rid now resps pick).led.blocks.dropLast, ∃ t ∈ b.txs, t.id = i.txId :=
+  (C02_of_derived _ (tickSync_derived env cfg n ts perm rid now resps pick hd)).1 q1 k1 m1 q2 k2 m2 b1 b2 t1 t2 i j
+
 namespace C16ex
 
 /-- a second transaction spending the genesis reward (the output `C05ex.tx` spends) -/
